@@ -20,7 +20,8 @@
 
    Model of what the code does NOW (after the fix: commits listed in known_findings.json).  Domain restrictions of
    the model (the generators respect them, see harness/dbgen.py): CSR rows handed to from_array have no duplicate
-   column inside a row; count values stay below 2^16 (no uint16 wrap); names are None or non-empty strings. *)
+   column inside a row; every count handed in is an integer in [0, 2^16) (sums formed by fold wrap at 2^16, as uint16 does:
+   `ksum KCount`); names are None or non-empty strings; concat of databases that all lack a matrix is not modelled. *)
 From Coq Require Import QArith Qround Qabs.
 From E3FP Require Import Base.Prelude Base.ZSet Model.Fprint.
 Open Scope Z_scope.
@@ -154,7 +155,8 @@ Definition add_precheck (d : db) (fps : list fpin) : result add_plan :=
     match check_valid (dlevel d) bits fps with
     | Some e => Raises e
     | None =>
-      let pnames := if (0 <? Z.of_nat (fp_num d)) then map fst (dprops d) else map fst (fi_props f0) in
+      (* if self.fp_num > 0 or len(self.props) > 0: the database's columns, else those of the first fingerprint *)
+      let pnames := if (0 <? Z.of_nat (fp_num d)) || (0 <? Z.of_nat (length (dprops d))) then map fst (dprops d) else map fst (fi_props f0) in
       rbind (collect (dkind d) pnames fps) (fun r =>
       let '(rs, ns, pvs) := r in Ok (mkplan bits rs ns (transpose pnames pvs)))
     end
@@ -173,8 +175,11 @@ Definition take_col (ps : list Z) (c : col) : col := (fst c, map (fun i => nth (
 
 (* ------------------------------------------------------------------------------------------------ fold *)
 (* the dtype's addition: logical or / integer sum / float sum *)
+(* uint16 arithmetic: sums wrap at 2^16 (COUNT_FP_DTYPE; stored counts are integers in [0, 2^16)) *)
+Definition count_dtype_max : Z := 65535.
+Definition wrap16 (q : Q) : Q := inject_Z (Qfloor q mod (count_dtype_max + 1)).
 Definition ksum (k : kind) (vs : list Q) : Q :=
-  match k with KBit => if existsb qnz vs then 1%Q else 0%Q | _ => qsum vs end.
+  match k with KBit => if existsb qnz vs then 1%Q else 0%Q | KCount => wrap16 (qsum vs) | KFloat => qsum vs end.
 (* sort_indices + csr_sum_duplicates on one row, as the function it computes: columns ascending, the stored values of
    equal columns added in the dtype *)
 Definition sum_dups (k : kind) (r : row) : row :=
@@ -304,7 +309,8 @@ Definition new_handle (s : state) : nat := length (pool s).
 (* a database built from data the operation computed: everything freshly allocated *)
 Definition new_db_fresh (s : state) (k : kind) (lv : option Z) (bits : Z) (rs : list row) (names : list okey) (cols : list col)
   : state * result out :=
-  if negb (forallb (fun c => Nat.eqb (length (snd c)) (length names)) cols) then (s, Raises EValue)
+  (* from_array: one name per row, then update_props(props): every column one cell per name - both ValueError, nothing built *)
+  if negb (Nat.eqb (length names) (length rs) && forallb (fun c => Nat.eqb (length (snd c)) (length names)) cols) then (s, Raises EValue)
   else let '(bs1, c) := alloc_csr (bufs s) rs bits in
        let '(bs2, ps) := alloc_cols bs1 cols in
        (push_obj s bs2 (mkobj k lv (Some c) names (names_map [] names 0) ps), Ok (ONew (new_handle s))).
@@ -312,7 +318,7 @@ Definition new_db_fresh (s : state) (k : kind) (lv : option Z) (bits : Z) (rs : 
 (* a database built on an existing matrix and existing property arrays *)
 Definition new_db_shared (s : state) (bs : list buf) (k : kind) (lv : option Z) (c : csr) (names : list okey) (ps : list (string * nat))
   : state * result out :=
-  if negb (props_fit bs ps (length names)) then (s, Raises EValue)
+  if negb (Nat.eqb (length names) (length (view_rows bs c)) && props_fit bs ps (length names)) then (s, Raises EValue)
   else (push_obj s bs (mkobj k lv (Some c) names (names_map [] names 0) ps), Ok (ONew (new_handle s))).
 
 (* csr_matrix(array, dtype=dtype): the identity on buffers when the dtype is unchanged, otherwise a new data buffer *)
@@ -328,12 +334,13 @@ Inductive op :=
 | OpFromArray (k : kind) (lv : option Z) (bits : Z) (dense : bool) (rs : list row) (names : list okey) (cols : list col)
 | OpAdd (h : nat) (fps : list fpin)
 | OpSetProp (h : nat) (key : string) (vals : list pval)
-| OpUpdateProps (h : nat) (cols : list col)
+| OpUpdateProps (h : nat) (cols : list col) (append : bool)                (* update_props(props_dict, append=...) *)
 | OpSubset (h : nat) (names : list okey)
 | OpAsType (h : nat) (k : kind) (copy : bool)
 | OpFold (h : nat) (nb : Z) (k : option kind)
 | OpCopy (h : nat)
 | OpPickle (h : nat)                                                       (* pickle.loads(pickle.dumps(db)) / deepcopy *)
+| OpReload (h : nat) (fpz : bool)                                         (* savez + load (.fpz)  /  save + load (.fps, pickle) *)
 | OpConcat (hs : list nat)
 | OpGetInt (h : nat) (i : Z)
 | OpGetName (h : nat) (nm : string)
@@ -371,9 +378,9 @@ Definition h_add (s : state) (oid : nat) (o : obj) (fps : list fpin) : state * r
   end.
 
 (* --- update_props(cols) / set_prop(key, vals) *)
-Definition h_update_props (s : state) (oid : nat) (o : obj) (cols : list col) : state * result out :=
+Definition h_update_props (s : state) (oid : nat) (o : obj) (cols : list col) (append : bool) : state * result out :=
   let d := view (bufs s) o in
-  match prep_props (dprops d) (length (onames o)) cols false true with
+  match prep_props (dprops d) (length (onames o)) cols append true with
   | Raises e => (s, Raises e)
   | Ok cs => let '(bs1, ps) := store_cols (bufs s) (oprops o) cs in
              (mkst bs1 (set_obj (objs s) oid (mkobj (okind o) (olevel o) (oarr o) (onames o) (oindex o) ps)) (pool s), Ok ONone)
@@ -546,13 +553,18 @@ Definition step (s : state) (o : op) : state * result out :=
   | OpNew k lv => (push_obj s (bufs s) (mkobj k lv None [] [] []), Ok (ONew (new_handle s)))
   | OpFromArray k lv bits dense rs names cols => new_db_fresh s k lv bits (input_rows k dense rs) names cols
   | OpAdd h fps => match lookup s h with Some (oid, ob) => h_add s oid ob fps | None => (s, Raises EOther) end
-  | OpSetProp h key vals => match lookup s h with Some (oid, ob) => h_update_props s oid ob [(key, vals)] | None => (s, Raises EOther) end
-  | OpUpdateProps h cols => match lookup s h with Some (oid, ob) => h_update_props s oid ob cols | None => (s, Raises EOther) end
+  | OpSetProp h key vals => match lookup s h with Some (oid, ob) => h_update_props s oid ob [(key, vals)] false | None => (s, Raises EOther) end
+  | OpUpdateProps h cols ap => match lookup s h with Some (oid, ob) => h_update_props s oid ob cols ap | None => (s, Raises EOther) end
   | OpSubset h names => match lookup s h with Some (oid, ob) => h_subset s oid ob names | None => (s, Raises EOther) end
   | OpAsType h k copy => match lookup s h with Some (oid, ob) => h_astype s oid ob k copy | None => (s, Raises EOther) end
   | OpCopy h => match lookup s h with Some (oid, ob) => h_astype s oid ob (okind ob) true | None => (s, Raises EOther) end
   | OpFold h nb ko => match lookup s h with Some (oid, ob) => h_fold s oid ob nb ko | None => (s, Raises EOther) end
   | OpPickle h => match lookup s h with Some (_, ob) => h_pickle s ob | None => (s, Raises EOther) end
+  | OpReload h fpz => match lookup s h with
+                      | Some (_, ob) => if fpz && (match oarr ob with None => true | Some _ => false end)
+                                        then (s, Raises EOther)               (* savez: None.data *)
+                                        else h_pickle s ob                    (* everything read from the file is new *)
+                      | None => (s, Raises EOther) end
   | OpConcat hs => match lookup_all s hs with Some os => h_concat s os | None => (s, Raises EOther) end
   | OpGetInt h i => match lookup s h with Some (_, ob) => (s, get_int (view (bufs s) ob) i) | None => (s, Raises EOther) end
   | OpGetName h nm => match lookup s h with Some (oid, ob) => h_getname s oid ob nm | None => (s, Raises EOther) end
